@@ -335,7 +335,7 @@ RoWrap(s, x, k) ==
     [] s = 10 -> MSL(<<x, x>>)
     [] s = 11 -> Pipe(x, Proj(Flat(Current), Identity))
     [] s = 12 -> C2("merge", x, fA)
-RoVals == {A3(I(3), I(1), I(2)), A3(S(cB), S(cAB), S(cA)), A3(I(3), S(cA), I(1)), A3(A2(I(2), I(1)), A2(S(cB), S(cA)), A0),
+RoVals == {O0, A0, A3(I(3), I(1), I(2)), A3(S(cB), S(cAB), S(cA)), A3(I(3), S(cA), I(1)), A3(A2(I(2), I(1)), A2(S(cB), S(cA)), A0),
            A3(O2(cA, I(2), cB, I(1)), O2(cA, I(1), cB, I(2)), O1(cA, I(0))), O2(cA, I(1), cB, I(2)), O2(cB, I(3), cC, I(4)), S(cAB), I(2), Null,
            A2(O2(cA, I(2), cB, I(1)), O1(cA, S(cA))), A3(I(2), Null, I(1))}
 DocsRo == {O2(cA, x, cB, y) : x \in RoVals, y \in RoVals} \cup RoVals
@@ -371,6 +371,9 @@ NavL1 == SetToSeq({fA, fB, fC, fD, fEe, fF, fG, fH, fCapA, Field(<<122>>), Curre
    Proj(fC, Identity), Proj(fC, fA), Proj(fC, fB), Proj(fC, fC), Proj(fC, IdxL(fC, 0)), Proj(fD, fA), Proj(fD, Identity), Proj(fEe, Identity), Proj(fF, Identity),
    Proj(Identity, fA), Proj(Identity, Identity), Proj(fC, fCapA),
    Proj(Flat(fC), Identity), Proj(Flat(Proj(fC, fC)), Identity), Proj(Flat(fD), fA), Proj(Flat(fEe), Identity), Proj(Flat(Identity), Identity),
+   Proj(Flat(MSL(<<fD, fD>>)), Identity), Proj(Flat(MSL(<<fD, fC>>)), MSL(<<fA>>)), C1("length", Proj(Flat(MSL(<<fD, fD>>)), Identity)),
+   Proj(Flat(Proj(Flat(Identity), fD)), MSL(<<fA>>)), Proj(Flat(Proj(Identity, fD)), MSH(<<KV(<<110>>, fB)>>)), C1("length", Proj(Flat(Proj(Identity, fD)), Identity)),
+   Proj(Flat(Proj(Identity, fC)), fA), Proj(Flat(MSL(<<fEe, fF, fD>>)), Identity),
    Filt(fC, Identity, Cmp("gt", fA, Lit(I(1)))), Filt(fC, fB, Cmp("eq", fB, Lit(S(<<120>>)))), Filt(fD, fA, fA), Filt(fEe, Identity, Cmp("gte", Current, Lit(I(2)))),
    Filt(fD, Identity, Current), Filt(fC, fA, fC), Filt(Identity, Identity, fA),
    SliceOf(fC, IntP(1), NoneP, NoneP), SliceOf(fEe, NoneP, NoneP, IntP(-1)), SliceOf(fD, NoneP, IntP(1), NoneP), SliceOf(fF, NoneP, NoneP, IntP(2)),
